@@ -63,7 +63,12 @@ def child(case):
     vloop.Gate.enabled = False
 
     async def run(loop, dbdir):
-        srv = harness.Server(w, dbdir, env_extra={'REORG_LIMIT': 5, 'MAX_SEND': max_send}).start()
+        srv = harness.Server(w, dbdir, env_extra={'REORG_LIMIT': 5, 'MAX_SEND': max_send})
+        if case.get('coin_default_max_send'):
+            # a coin whose built-in default differs from the configured MAX_SEND (the configured value is what counts)
+            srv.env.coin.DEFAULT_MAX_SEND = case['coin_default_max_send']
+            bump('cases_with_configured_max_send_above_the_coin_default')
+        srv = srv.start()
         if not await srv.wait_listening(3000) or not await srv.wait_caught_up(3000):
             out['inconclusive'].append(f'server did not come up: {srv.check_task()}')
             return
@@ -401,10 +406,11 @@ def child(case):
 
 def run(tier, seed, replay=None):
     rep = Report(PID, tier, seed, 'exploration')
-    sends = [350000, 350064, 350163, 400000, 1000]
+    sends = [350000, 350064, 350163, 400000, 1000, 450000]
     if tier == 'thorough':
         sends += [350001, 350063, 350065, 350262, 500000, 349999]
-    cases = [{'seed': seed * 13 + i, 'max_send': ms, 'nblocks': 2100 if i == 0 else 2030, 'sample': i == 0} for i, ms in enumerate(sends)]
+    cases = [{'seed': seed * 13 + i, 'max_send': ms, 'nblocks': 2100 if i == 0 else 2030, 'sample': i == 0,
+              'coin_default_max_send': 380000 if ms == 450000 else None} for i, ms in enumerate(sends)]
     rep.absorb(run_cases(child, cases, watchdog=1500), 'MAX_SEND setting')
     c = rep.counters
     for name, minimum in {'history_requests': 50, 'histories_answered_in_full': 15, 'histories_refused_too_large': 15, 'refused_cached': 8,
